@@ -15,7 +15,9 @@ import traceback
 import warnings
 from collections import Counter
 
-from .engine import ENGINE_VERSION, HarnessError, generate_and_run, replay
+from .engine import ENGINE_VERSION, HarnessError
+from .engine import execute as generate_and_run
+from .engine import execute_replay as replay
 from .rng import derive
 from .shrink import minimise
 
@@ -56,6 +58,10 @@ def _worker_init(prop_id, quiet):
     if quiet:
         sys.stdout = open(os.devnull, "w")
     _W["prop"] = load_prop(prop_id)
+    if getattr(_W["prop"], "needs_zygote", False) or getattr(_W["prop"], "isolate_runs", False):
+        from .seams import get_zygote
+
+        get_zygote()  # fork the pristine twin server now, before this worker executes its first run
 
 
 def _summarise(index, res, shrunk):
